@@ -59,7 +59,7 @@ func (s strategy) GetPublicKey() (ed25519.PublicKey, error) {
 	return s.priv.Public().(ed25519.PublicKey), nil
 }
 
-var strategies = []string{"honest", "honest", "honest", "wrongkey", "badsig", "otherdata", "shortsig", "error"}
+var strategies = []string{"honest", "honest", "parsed", "parsed", "wrongkey", "badsig", "otherdata", "shortsig", "error"}
 
 // bundleFile makes a file of n bytes whose last 8 bytes state trailer (default: n).
 func bundleFile(g *mon.Rand, n int, trailer *uint64) []byte {
@@ -148,7 +148,13 @@ func run(r *mon.Run) {
 			pub, priv := gen.EdKey(g)
 			otherPub, _ := gen.EdKey(g)
 			kind := mon.Pick(g, strategies)
-			st := strategy{kind: kind, priv: priv, other: otherPub}
+			var st integrityblock.ISigningStrategy = strategy{kind: kind, priv: priv, other: otherPub}
+			var keyBuf ed25519.PrivateKey
+			if kind == "parsed" {
+				// the repository's own strategy over a key buffer that the caller wipes once the signature has been added
+				keyBuf = append(ed25519.PrivateKey{}, priv...)
+				st = integrityblock.NewParsedEd25519KeySigningStrategy(keyBuf)
+			}
 			recPub, _ := st.GetPublicKey()
 			attrs := integrityblock.GenerateSignatureAttributesWithPublicKey(recPub)
 			ex := extras(g)
@@ -168,6 +174,10 @@ func run(r *mon.Run) {
 			ibs.SigningStrategy = st
 			var serr error
 			p, pv := r.Call(fmt.Sprintf("lib/%d/op%d/%s", i, k, kind), nil, func() { serr = ibs.SignAndAddNewSignature(recPub, attrs) })
+			for z := range keyBuf {
+				keyBuf[z] = 0
+			}
+			honest := kind == "honest" || kind == "parsed"
 			seqDesc = append(seqDesc, kind)
 			det := map[string]any{"case": i, "file_size": size, "operation": k, "strategy": kind, "extra_attributes": len(ex), "error": fmt.Sprint(serr), "stack_before": before, "stack_after": len(ib.SignatureStack)}
 			key := fmt.Sprintf("ib:lib:%d:op%d:%s", i, k, kind)
@@ -176,17 +186,16 @@ func run(r *mon.Run) {
 				bad = true
 				r.Eval("lib:PANIC")
 				r.Violation(key+":panic", fmt.Sprintf("SignAndAddNewSignature panicked (%s strategy): %v", kind, pv), det)
-			case kind == "honest" && (serr != nil || len(ib.SignatureStack) != before+1):
+			case honest && (serr != nil || len(ib.SignatureStack) != before+1):
 				bad = true
 				r.Eval("lib:HONEST-REFUSED")
 				r.Violation(key+":refused", fmt.Sprintf("honest signing failed: %v", serr), det)
-			case kind != "honest" && (serr == nil || len(ib.SignatureStack) != before):
+			case !honest && (serr == nil || len(ib.SignatureStack) != before):
 				bad = true
 				r.Eval("lib:MISMATCH-ACCEPTED")
 				r.Violation(key+":accepted", fmt.Sprintf("a %q strategy (the signature obtained does not verify under the public key being recorded) was accepted: err=%v, signature stack %d -> %d", kind, serr, before, len(ib.SignatureStack)), det)
-			case kind == "honest":
-				_ = pub
-				accepted = append(accepted, recPub)
+			case honest:
+				accepted = append(accepted, append(ed25519.PublicKey{}, pub...))
 				r.Eval("lib:honest-added")
 			default:
 				r.Eval("lib:mismatch-refused")
